@@ -179,6 +179,7 @@ def main():
     gen_cases, gstats = cfg["generate"](rng, tier, seed)
     cases += gen_cases
     stats.update(gstats)
+    stats["depth_factor"] = V.depth_factor()   # 1 on the calibrated tree, 4 when /repo's library sources differ from it
     impl, model = run_both(cases)
     dis, ora = evaluate(prop, cfg, cases, impl, model)
     # independent replays of every history in fresh processes (fresh hash seeds): the implementation must reproduce
